@@ -103,3 +103,10 @@ check(
     "scale/train_test_split/learner/r2_score are stubs; numpy.var is over-approximated by an arbitrary non-negative real unless it is a number; the DataFrame branch runs on a minimal frame model; float round-off outside.",
     "DESIGN.md 3.C18",
 )
+check(
+    "C06",
+    "bounded symbolic execution (SX, z3 LRA) of the real L1 Lloyd loop, initialisation, M-step, E-step glue, best-of-n_init, predict and transform on a symbolic data matrix with symbolic random draws; SX model of scikit-learn's Manhattan argmin validated against the real function; concrete-mode replay on real scikit-learn",
+    "For (n,d,k,max_iter) in {(3,1,2,2),(3,2,2,2),(2,1,2,2),(3,1,1,2)} (+(4,1,2,2),(3,1,3,2),(4,1,3,2) thorough), 'random' init over every permutation and array init over every choice of rows, tol 0 or symbolic, data with at least k distinct rows (ties and duplicates included): no exception, every label is a Manhattan-nearest centre OF THE RETURNED centres, inertia is the sum of those distances, every centre coordinate is a number inside the data range, n_iter <= max_iter; after KMeansL1L2.fit (n_init=2): the same, predict(X_train) = labels_, transform = Manhattan distances, hyper-parameters unchanged. norm='L2': fit/predict/transform hand the caller's arguments to KMeans and return its result (+ one concrete comparison with KMeans).",
+    "k-means++ seeding, sample weights, sparse input and float32 rounding are outside; scikit-learn's distance functions are an SX model (validated); equality with KMeans beyond delegation is scikit-learn's.",
+    "DESIGN.md 3.C06",
+)
